@@ -110,6 +110,50 @@ def run(ctx, report):
                     r.finding(f"{which}.{a}[{cc}]", f"{cc}: {which}.{a} returns positions {_positions(body, got)} of the BBAN; the table publishes "
                               f"{rng if rng else 'no such field'}", (iban if which == 'IBAN' else prog.get('schwifty.bban.BBAN')).where, witness=text)
 
+    # ------------------------------------------------------------------ R11-abstract: no value-dependent special case in the accessors
+    from ..values import AStr, CharSet, ASCII_DIGITS, ASCII_UPPER
+    from ..algo_eval import CLASS_CHARS, struct_positions
+    r = report.rule("R11-abstract", floor=100, what="on abstract BBANs (any characters of the structure classes) every path of every accessor returns the published positions")
+    nbad = 0
+    for cc in sorted(reg.countries):
+        st = struct_positions(reg, cc)
+        if st is None:
+            continue
+        tags = [CharSet(CLASS_CHARS[k].chars) for k in st]
+        pos = reg.positions(cc)
+        it2 = facts.interp()
+
+        def thunk():
+            text = AStr([cc[0], cc[1], "0", "0"] + tags)
+            obj = Obj(iban, strval=text)
+            init = iban.lookup(prog, "__init__")
+            it2.call_func(init[2], [obj, text], {"allow_invalid": True}, None)
+            b = it2.getattr(obj, "bban")
+            return {a: (it2.getattr(obj, a), it2.getattr(b, a)) for a in COMPONENT_ACCESSORS}
+
+        try:
+            outs = [x for x in it2.explore(thunk, max_paths=2000) if x.kind != "infeasible"]
+        except (CannotEvaluate, PathLimit) as e:
+            raise AnalysisError(f"cannot evaluate the accessors of {cc} on an abstract BBAN: {e}")
+        r.instance({"country": cc, "paths": len(outs)} if cc in ("DE", "BR") else None)
+        for x in outs:
+            if x.kind != "return":
+                nbad += 1
+                if nbad <= 3:
+                    r.finding(f"accessors-abstract[{cc}]", f"{cc}: reading the components of a structure-conforming IBAN can raise {x.value.name} at {x.value.where}", iban.where)
+                continue
+            for a in COMPONENT_ACCESSORS:
+                rng = pos.get(a)
+                want = tags[rng[0]:rng[1]] if isinstance(rng, list) and len(rng) == 2 else []
+                for which, got in zip(("IBAN", "BBAN"), x.value[a]):
+                    seq = list(got.pos) if isinstance(got, AStr) else ([got] if isinstance(got, CharSet) else (list(got) if isinstance(got, str) else None))
+                    if seq is None or len(seq) != len(want) or any(g is not w for g, w in zip(seq, want)):
+                        nbad += 1
+                        if nbad <= 3:
+                            cond = "; ".join(f"{ev['left']!r} {ev['op']} {ev['right']!r}" for ev in x.events if ev["kind"] == "compare" and isinstance(ev.get("right"), str) and ev["right"])[:200]
+                            r.finding(f"{which}.{a}-abstract[{cc}]", f"{cc}: on some structure-conforming texts {which}.{a} does not return the published range {rng} "
+                                      f"(a value-dependent path: {cond or 'see conditions of the accessor'})", iban.where)
+
     # ------------------------------------------------------------------ R11-enum
     r = report.rule("R11-enum", floor=8, what="component enumeration = keys used under positions / lookup components in the table")
     used = set()
